@@ -546,7 +546,11 @@ class SplitMix:
     """Deterministic PRNG shared by all Python-side generators (one state per run)."""
 
     def __init__(self, seed):
-        self.s = (seed * 0x9E3779B97F4A7C15 + 0x1234567) & 0xFFFFFFFFFFFFFFFF
+        # scramble the seed first: with s = seed*GOLDEN + c the streams of adjacent seeds would be
+        # shifted copies of each other
+        z = (seed * 0xD6E8FEB86659FD93 + 0x2545F4914F6CDD1D) & 0xFFFFFFFFFFFFFFFF
+        z = ((z ^ (z >> 32)) * 0xD6E8FEB86659FD93) & 0xFFFFFFFFFFFFFFFF
+        self.s = z ^ (z >> 29)
 
     def next(self):
         self.s = (self.s + 0x9E3779B97F4A7C15) & 0xFFFFFFFFFFFFFFFF
